@@ -124,7 +124,7 @@ class Script:
                         self.lines.append(f'    {self.accessor_expr(prt, cl)}.{ev.direction}.{ev.name} = '
                                           f'{self.handler(side, prt, ev)};')
                 else:
-                    self.lines.append(f'    g_enc(shell).{prt.name}.{ev.direction}.{ev.name} = '
+                    self.lines.append(f'    g_enc(shell).hook_{prt.name}_{ev.direction}_{ev.name} = '
                                       f'{self.handler("comp", prt, ev)};')
 
     def invoke(self, slot_expr: str, ev: fam.Ev, tag: str, itf_t: str):
